@@ -367,3 +367,9 @@ package gostatsd
 //@   requires e != nil
 //@   ensures  e.Source == newSource && len(e.Tags) == old(len(e.Tags)) + len(additionalTags) && e.Title == old(e.Title) && e.Text == old(e.Text) && e.DateHappened == old(e.DateHappened) && e.AggregationKey == old(e.AggregationKey) && e.SourceTypeName == old(e.SourceTypeName) && e.Priority == old(e.Priority) && e.AlertType == old(e.AlertType)
 //@   modifies e.Tags, e.Source
+
+// A cloud provider may do anything except reach into the lookup dispatcher that calls it.
+//@ func (CloudProvider).Instance
+//@   trusted
+//@   modifies everything
+//@   preserves cloudprovider.cloudProviderLookupDispatcher
